@@ -970,6 +970,138 @@ func c15RunPtyOpt(dir string, answers []string, stdoutTTY bool, bin string, args
 	return res, tty.String()
 }
 
+// ---- the input typed on a terminal, the output anywhere ----
+
+type c15TtyIn struct {
+	Lines   int    `json:"lines"`   // lines of text typed before ^D (encryption), or the plaintext's line count (decryption)
+	Armor   bool   `json:"armor"`   // -a when encrypting
+	Decrypt bool   `json:"decrypt"` // an armored file written by the reference is typed and decrypted
+	Out     string `json:"out"`     // devfull | stdout-file | stdout-pipe | o-file
+}
+
+func c15CheckTtyIn(c c15TtyIn, st *stats.Run) error {
+	bin := os.Getenv("VERIF_BIN")
+	if bin == "" {
+		return nil
+	}
+	p := hx.ThePool()
+	dir, err := os.MkdirTemp(".", "c15t-")
+	if err != nil {
+		return pbt.Failf("C15/harness", "%v", err)
+	}
+	dir, _ = filepath.Abs(dir)
+	defer os.RemoveAll(dir)
+	var plain []byte
+	for i := 0; i < c.Lines; i++ {
+		plain = append(plain, fmt.Sprintf("typed line %d on the terminal\n", i)...)
+	}
+	spec := hx.RecSpec{Kind: "x25519", Idx: 1}
+	typed := plain
+	args := []string{"-r", refage.Bech32Encode("age", refage.X25519Public(p.X25519[1]))}
+	if c.Armor {
+		args = append(args, "-a")
+	}
+	if c.Decrypt {
+		typed = []byte(refage.Armor(refFile(p, []hx.RecSpec{spec}, hx.PRG(77, 16), 78, plain).Bytes()))
+		os.WriteFile(filepath.Join(dir, "key.txt"), []byte(refage.Bech32Encode("AGE-SECRET-KEY-", p.X25519[1])+"\n"), 0o600)
+		args = []string{"-d", "-i", "key.txt"}
+	}
+	if len(typed) > 3500 {
+		return pbt.Failf("C15/harness", "typed text of %d bytes does not fit a terminal's input queue", len(typed))
+	}
+	if c.Out == "o-file" {
+		args = append(args, "-o", "out.bin")
+	}
+	st.Case(c.Out == "devfull" || c.Lines > 0, stats.HashJSON(c), "op=tty-input", "tty-input:out="+c.Out, fmt.Sprintf("tty-input:decrypt=%v", c.Decrypt), fmt.Sprintf("tty-input:armor=%v", c.Armor))
+	st.Sample("tty-input", c)
+	m, sl, err := hx.OpenPTY()
+	if err != nil {
+		st.Label("inconclusive-pty")
+		return nil
+	}
+	defer m.Close()
+	go io.Copy(io.Discard, m) // the echo
+	cmd := exec.Command(filepath.Join(bin, "age"), args...)
+	cmd.Dir = dir
+	cmd.Env = []string{"PATH=/nonexistent", "HOME=" + dir}
+	var so, se bytes.Buffer
+	cmd.Stdin, cmd.Stderr = sl, &se
+	var outFile *os.File
+	switch c.Out {
+	case "devfull":
+		outFile, err = os.OpenFile("/dev/full", os.O_WRONLY, 0)
+		cmd.Stdout = outFile
+	case "stdout-file":
+		outFile, err = os.Create(filepath.Join(dir, "out.bin"))
+		cmd.Stdout = outFile
+	default:
+		cmd.Stdout = &so
+	}
+	if err != nil {
+		sl.Close()
+		return pbt.Failf("C15/harness", "%v", err)
+	}
+	if outFile != nil {
+		defer outFile.Close()
+	}
+	if err := cmd.Start(); err != nil {
+		sl.Close()
+		return pbt.Failf("C15/harness", "%v", err)
+	}
+	sl.Close()
+	time.Sleep(150 * time.Millisecond)
+	m.Write(typed)
+	m.Write([]byte{4})
+	done := make(chan error, 1)
+	go func() { done <- cmd.Wait() }()
+	code := 0
+	select {
+	case err := <-done:
+		if err != nil {
+			code = -1
+			if ee, ok := err.(*exec.ExitError); ok && ee.ExitCode() > 0 {
+				code = ee.ExitCode()
+			}
+		}
+	case <-time.After(60 * time.Second):
+		cmd.Process.Kill()
+		<-done
+		st.Label("inconclusive-pty")
+		return nil
+	}
+	if c.Out == "devfull" {
+		// every result here has at least one byte, and none can be delivered
+		if code == 0 {
+			return pbt.Failf("C15/exit0-on-failure", "age %v with the input typed on a terminal and standard output on /dev/full exits 0; nothing was delivered (stderr %q)", args, trunc([]byte(se.String())))
+		}
+		return nil
+	}
+	got := so.Bytes()
+	if c.Out != "stdout-pipe" {
+		got, _ = os.ReadFile(filepath.Join(dir, "out.bin"))
+	}
+	if code != 0 {
+		return pbt.Failf("C15/nonzero-on-success", "age %v with the input typed on a terminal fails with status %d: %s", args, code, trunc([]byte(se.String())))
+	}
+	if c.Decrypt {
+		if !bytes.Equal(got, plain) {
+			return pbt.Failf("C15/exit0-incomplete-output", "age %v exits 0, output has %d bytes, the plaintext %d", args, len(got), len(plain))
+		}
+		return nil
+	}
+	file := got
+	if c.Armor {
+		if file, err = refage.Dearmor(string(got)); err != nil {
+			return pbt.Failf("C15/exit0-incomplete-output", "age %v exits 0, its output is not a complete armored file: %v", args, err)
+		}
+	}
+	back, err := refage.Decrypt(file, p.RefKey(spec))
+	if err != nil || !bytes.Equal(back, plain) {
+		return pbt.Failf("C15/exit0-incomplete-output", "age %v exits 0, the reference decrypts its output to %d bytes (%v), typed were %d", args, len(back), err, len(plain))
+	}
+	return nil
+}
+
 var c15Autogen = map[string]bool{}
 
 func c15CheckPty(c c15Pty, st *stats.Run) error {
@@ -1537,6 +1669,26 @@ func TestC15(t *testing.T) {
 		s.St.Exhaust("plugin recipients and identities through the age command: {encrypt, decrypt} x plugin {does its part, reports an error, returns nothing, exits at once, is not installed} x output {new file, stdout, existing file} x plaintext lengths", int64(n))
 	}, func(c c15Plug) error { return c15CheckPlug(c, s.St) })
 	pbt.Rapid(s, "cli", s.N(600, 1500), c15Gen, check)
+
+	pbt.Each(s, "cli-tty-input", func(yield func(c15TtyIn)) {
+		n := 0
+		for _, out := range []string{"devfull", "stdout-file", "stdout-pipe", "o-file"} {
+			for _, mode := range []c15TtyIn{{Armor: true}, {}, {Decrypt: true}} {
+				for _, lines := range []int{0, 1, 40} {
+					if mode.Decrypt && lines == 0 && out == "devfull" {
+						continue // an empty plaintext needs no byte written
+					}
+					if s.Mine(n) {
+						c := mode
+						c.Lines, c.Out = lines, out
+						yield(c)
+					}
+					n++
+				}
+			}
+		}
+		s.St.Exhaust("input typed on a terminal (ended with ^D): {encrypt armored, encrypt binary, decrypt a typed armored file} x output {/dev/full, standard output to a file, to a pipe, -o file} x {0, 1, 40} lines", int64(n))
+	}, func(c c15TtyIn) error { return c15CheckTtyIn(c, s.St) })
 
 	pbt.Each(s, "cli-passphrase-pty", func(yield func(c15Pty)) {
 		yield(c15Pty{Decrypt: "right", Pass: "terminal passphrase", PlainLen: 100})
